@@ -233,7 +233,7 @@ pub fn run(ctx: &mut Ctx) {
     let ns = ctx.share(ctx.tier.pick(8_000, 160_000));
     ctx.run_leg::<Sessions>(ns, false, 400);
 
-    let nc = ctx.share(ctx.tier.pick(400, 8_000));
+    let nc = ctx.share(ctx.tier.pick(1_600, 24_000));
     ctx.run_leg::<Cold>(nc, false, 40);
     super::coldstart::infra_inconclusive(ctx);
 
